@@ -242,7 +242,8 @@ def run_http(case):
         with fk.patched_async_client(svc.handler):
             b = b2.B2('bkt', key_id='kid', application_key='appkey')
         store = None
-    download = m in ('download', 'download_stream', 'exists', 'list')
+    # the object exists for reads and for delete (unless the case says it is absent)
+    download = m in ('download', 'download_stream', 'exists', 'list') or (m == 'delete' and not case.get('absent'))
     if backend_kind == 's3c':
         if download or case.get('old'):
             svc.objects[NAME] = data if download else OLD
@@ -526,7 +527,7 @@ def run_local(case, root: Path):
     if root.exists():
         shutil.rmtree(root)
     b = Local(str(root))
-    download = m in ('download', 'download_stream', 'exists', 'list', 'delete')
+    download = m in ('download', 'download_stream', 'exists', 'list') or (m == 'delete' and not case.get('absent'))
     if download or case.get('old'):
         b.upload(NAME, data if download else OLD)
     if m == 'list':
@@ -614,6 +615,8 @@ def enumerate_cases(f, chunks, tier_thorough):
                             cases.append(case)
                             if method == 'upload_stream' and size == c + 1 and L in (1, mt):
                                 cases.append(dict(case, old=True))
+                            if method == 'delete':
+                                cases.append(dict(case, absent=True))     # deleting what is not there, under the same faults
                             if method == 'download_stream' and size == c + 1 and L in (1, 2):
                                 cases.append(dict(case, init=2 * c + 3))     # the target stream already holds longer contents
     return cases
@@ -889,7 +892,7 @@ def check_cases(cases, rep: Report, scratch: Path, f, with_model=True):
             res = execute(case, scratch)
             results.append(res)
             L = len(case['faults'])
-            rep.case((case['backend'], case['method'], case.get('seconds_per_piece'), case.get('concurrent'), case.get('authorize_delay'), case['size'], case['chunk'], case.get('old'), case.get('init'), case.get('piece'), case.get('prelude'),
+            rep.case((case['backend'], case['method'], case.get('absent'), case.get('seconds_per_piece'), case.get('concurrent'), case.get('authorize_delay'), case['size'], case['chunk'], case.get('old'), case.get('init'), case.get('piece'), case.get('prelude'),
                       [sorted(x.items()) for x in case['faults']]), nontrivial=res['fired'] >= 1)
             rep.count(f'{case["backend"]}:{case["method"]}')
             rep.count('run_length=' + (str(L) if L <= 6 else '>6'))
